@@ -495,6 +495,7 @@ var engCorpus = func() []engCase {
 		{Pattern: "a\u0391a+", Opts: rtl, Text: R("xa\u0391aa"), Start: 5},
 		{Pattern: `.*(?:[b-c]){1,3}?[a-c](?>\D{0,}?)[\wa-c]`, Opts: sl, Text: R("Abccbc\u00e9"), Start: 3},
 		{Pattern: `(a)bx|(a)cy|(a)bz`, Text: R("acy")},
+		{Pattern: `\s+a(?:bc|x|b)c`, Text: R(" abc")},
 		{Pattern: `(a)bcx|(a)bdy|(a)bcz`, Text: R("abdy")},
 		{Pattern: `(?=.*(?<a>x))(?<b-a>y)\k<b>`, Text: R("y.x")},
 		{Pattern: `a*`, Opts: rtl, Text: R("baa"), Start: 3},
